@@ -103,5 +103,11 @@ int ReplayMain(const std::string& path,
     return 0;
 }
 
+// Engine E4: one row per line; check(row) returns "" or a description of the disagreement.
+int TableMain(const std::string& path, const std::function<std::string(const UniValue& row)>& check);
+// int64 from the Amount record {neg, d:[lo, mid, hi]} (base 10^8 limbs)
+int64_t AmountFromLimbs(const UniValue& a);
+UniValue LimbsFromAmount(int64_t v);
+
 } // namespace vfh
 #endif
